@@ -1,10 +1,11 @@
 #!/bin/bash
-# tools/eval_round5.sh C01 C02 ... : evaluate the two round-6 changes of each named property (from /tmp/seed7/<C>/SEED/{a,b})
+# tools/eval_round.sh <round-no> C01 C02 ... : evaluate the two changes of each named property from /tmp/seed<round>/<C>/SEED/{a,b}
 cd /verif
+R=$1; shift
 for c in "$@"; do
   for v in a b; do
-    d=/tmp/seed7/$c/SEED/$v
-    [ -f $d/patch.diff ] || { echo "seed7$v-$c: missing"; continue; }
-    tools/seed_eval.py seed7$v-$c $c $d/patch.diff $d/demo.py --notes $d/notes.md 2>&1 | tail -2
+    d=/tmp/seed$R/$c/SEED/$v
+    [ -f $d/patch.diff ] || { echo "seed$R$v-$c: missing"; continue; }
+    tools/seed_eval.py seed$R$v-$c $c $d/patch.diff $d/demo.py --notes $d/notes.md 2>&1 | tail -2
   done
 done
